@@ -667,15 +667,36 @@ func scrapUnderLock(w *load.World, c *core.Collector) {
 		typ, _, ok := fieldNameOf(call.Call.Args[0])
 		return ok && strings.HasSuffix(typ, "sharedCacheElem")
 	}
+	markStore := func(in ssa.Instruction) bool {
+		st, ok := in.(*ssa.Store)
+		if !ok {
+			return false
+		}
+		typ, name, ok := fieldNameOf(st.Addr)
+		return ok && name == "scrapped" && strings.HasSuffix(typ, "sharedCacheElem")
+	}
+	// the mark itself, or a call of a helper of the package that makes it
+	isMark := func(in ssa.Instruction) bool {
+		if markStore(in) {
+			return true
+		}
+		h := ssax.StaticModuleCallee(in)
+		if h == nil || len(h.Blocks) == 0 || load.PkgPath(h) != load.Mod+"/shard/cache" {
+			return false
+		}
+		for _, hb := range h.Blocks {
+			for _, hi := range hb.Instrs {
+				if markStore(hi) {
+					return true
+				}
+			}
+		}
+		return false
+	}
 	n, bad := 0, ""
 	for _, b := range f.Blocks {
 		for i, in := range b.Instrs {
-			st, ok := in.(*ssa.Store)
-			if !ok {
-				continue
-			}
-			typ, name, ok := fieldNameOf(st.Addr)
-			if !ok || name != "scrapped" || !strings.HasSuffix(typ, "sharedCacheElem") {
+			if !isMark(in) {
 				continue
 			}
 			n++
